@@ -502,7 +502,9 @@ class RaftNode(Entity):
             self._step_down(term)
             return [self._schedule_election_timeout()]
 
-        if self._state != RaftState.LEADER:
+        if self._state != RaftState.LEADER or term != self._current_term:
+            # Replies to AppendEntries sent in an earlier term of ours say nothing
+            # about what the follower holds now.
             return []
 
         if follower is None:
